@@ -42,13 +42,20 @@ func c01Body(edge bool, maxN int) mc.Body {
 	return func(x *mc.X) mc.Outcome {
 		n := 1 + x.Choose(maxN, "npoints")
 		pts := make([]data.Point, n)
+		// 4 timestamp assignments: small / int64 extremes, increasing or decreasing with the point index
+		// (the other fields are tied to the index, so both "newer point has the larger tombstone/value" and the opposite occur)
+		tv := x.Choose(4, "ts-variant")
 		tsv := c01TsA
-		if x.Choose(2, "ts-variant") == 1 {
+		if tv%2 == 1 {
 			tsv = c01TsB
 		}
 		for i := 0; i < n; i++ {
 			id := c01Idents[x.Choose(len(c01Idents), "ident")]
-			pts[i] = data.Point{Type: id.typ, Key: id.key, Time: time.Unix(0, tsv[i]), Value: c01Vals[i], Text: c01Texts[i], Tombstone: c01Tombs[i], Origin: c01Origin[i], Data: c01Data[i]}
+			ts := tsv[i]
+			if tv >= 2 {
+				ts = tsv[n-1-i]
+			}
+			pts[i] = data.Point{Type: id.typ, Key: id.key, Time: time.Unix(0, ts), Value: c01Vals[i], Text: c01Texts[i], Tombstone: c01Tombs[i], Origin: c01Origin[i], Data: c01Data[i]}
 		}
 		// permutation (Lehmer code)
 		rest := make([]int, n)
@@ -234,7 +241,7 @@ func checkC01(r *mc.Report, thorough bool) {
 	if thorough {
 		n = 4
 	}
-	rule := fmt.Sprintf("all point lists of 1..%d points over 6 identities (incl. (a,\"\")/(a,\"0\") and the (ab,\"\")/(a,b)/(a0,\"\") concatenation collisions), 2 timestamp sets (small; int64 extremes), x all permutations x all compositions into batches x one re-delivery of any batch at any later position; read-back checked after every delivery", n)
+	rule := fmt.Sprintf("all point lists of 1..%d points over 6 identities (incl. (a,\"\")/(a,\"0\") and the (ab,\"\")/(a,b)/(a0,\"\") concatenation collisions), 4 timestamp assignments (small / int64 extremes, rising / falling against the other fields), x all permutations x all compositions into batches x one re-delivery of any batch at any later position; read-back checked after every delivery", n)
 	r.Explore(mc.Config{Name: fmt.Sprintf("node-points-n%d", n), Rule: rule, SelfCheckEvery: 5000}, c01Body(false, n))
 	r.Explore(mc.Config{Name: fmt.Sprintf("edge-points-n%d", n), Rule: rule, SelfCheckEvery: 5000}, c01Body(true, n))
 	sh.CleanupTemplate()
